@@ -13,7 +13,9 @@ ASSUMPTIONS = [
     "pytestarch.eval_structure.networkxgraph are replaced by recorders in the harness process only",
     "the text of a label <<source, rest>> is alias text + '.' + remaining components (harness render table); which "
     "source applies is decided by Labels!LabelSource in TLC",
-    "an error 'names' a module when the module's dotted name occurs in the message as a maximal dotted-identifier token",
+    "an error 'names' a module when the module's dotted name occurs in the message as a maximal dotted-name token "
+    "(name characters: word characters and '+' '-')",
+    "rendering adv4 uses file names that are no identifiers ('api-x' next to 'api': characters that sort before the dot)",
     "drawing options are compared by repr(); only plain scalars are passed",
     "alias texts never end with '.<lower-case identifier>', so the text of a label determines which aliased module "
     "it was built from (rendered module names are lower case) - otherwise the back-projection would be ambiguous",
@@ -76,7 +78,7 @@ def viz_items(rng, alias_mods, k0=0, with_rename=False, render=None):
              {"op": "viz", "rid": f"V{k0}o", "aliases": al, "kw": _kw(rng), "spacing": None, "order": "desc", "render": r0},
              {"op": "law", "law": "same", "as": [r0, r0], "rids": [f"V{k0}", f"V{k0}o"]}]
     if with_rename:      # C14: the same abstract call under the collision-free and the adversarial renamings
-        for r2 in ("clean", "adv", "adv2", "adv3"):
+        for r2 in ("clean", "adv", "adv2", "adv3", "adv4"):
             if r2 != r0:
                 items.append({"op": "viz", "rid": f"V{k0}", "aliases": al, "kw": kw, "spacing": sp, "render": r2})
                 items.append({"op": "law", "law": "rename", "as": [r0, r2], "rids": [f"V{k0}", f"V{k0}"]})
@@ -98,7 +100,7 @@ def specs_for(ctx):
         w = random_world(rng, n_modules=rng.randint(6, 30), n_imports=rng.randint(0, 30),
                          pool=PREFIX_POOL if prefixy else None)
         items = []
-        rnd = "ident" if prefixy else rng.choice(["ident", "clean", "adv", "adv2", "adv3"])
+        rnd = "ident" if prefixy else rng.choice(["ident", "clean", "adv", "adv2", "adv3", "adv4", "adv4"])
         for k in range(4):
             n = rng.randint(0, 6)
             mods = rng.sample(w.modules, min(n, len(w.modules)))
